@@ -189,7 +189,7 @@ JOB_TIMEOUT = [90]
 
 def plan(tier, seed):
     """list of (name, profile, binary, args) trace jobs"""
-    JOB_TIMEOUT[0] = 300 if tier == 'quick' else 2400
+    JOB_TIMEOUT[0] = int(os.environ.get('VERIF_JOB_TIMEOUT', 300 if tier == 'quick' else 2400))
     jobs = []
     for f in sorted(glob.glob(os.path.join(ROOT, 'corpus', '*.trace'))):
         b = os.path.basename(f)[:-6]
